@@ -11,6 +11,9 @@ def register(prop, TB):
     bins = ["rt", "pbrun"]
     prop("C05", lean_props=["C05", "PbTables"], trusted_base=tb, bins=bins,
          streams=[{"name": "C05"}, {"name": "C05e", "bin": "pbrun"}])
+    prop("C06", lean_props=["C06", "PbTables"], trusted_base=tb + [
+             "C06: the reference (Proto/Spec.lean, harness/pbshared/refcodec.rs) is written from the protobuf encoding guide, which is not in the sandbox; the facts used are listed at the top of Proto/Spec.lean",
+         ], bins=bins, streams=[{"name": "C06"}, {"name": "C06e", "bin": "pbrun"}])
     prop("C10", lean_props=["C10", "PbTables"], trusted_base=tb, bins=bins,
          streams=[{"name": "C10"}, {"name": "C10e", "bin": "pbrun"}])
     prop("C18", lean_props=["C18", "PbTables"], trusted_base=tb, bins=bins,
